@@ -1,5 +1,6 @@
 import ServiceModel.Proofs.Reachable
 import ServiceModel.Proofs.Deposit
+import ServiceModel.Proofs.MonitorSound
 /-!
 # C03 — Binding deposits stay in custody and leave only by the rules
 -/
@@ -109,5 +110,11 @@ theorem deposit_raised_only_by_update_or_enable (s : State) (op : Op) (h : op.ma
     (k : SvcName × Addr) (b : Binding) (hb : Map.get s.bindings k = some b) :
     ∃ b', Map.get (step s op).1.bindings k = some b' ∧ b'.deposit ≤ b.deposit :=
   step_dep ge_refl' s op (exec_dep_not_raised s op h) k b hb
+
+/-- The executable monitor `depositBacked`, which the check evaluates on every state decoded from the implementation's
+    trace, is a decidable reading of this equation: it reports nothing on any reachable state of the model, so an
+    alarm of it on an implementation state shows a state the model cannot reach. -/
+theorem deposit_monitor_implied {cfg : Config} {p : Params} {h0 t0 : Int} (hc : CfgOK cfg p) {s : State}
+    (hr : Reachable cfg p h0 t0 s) : Mon.depositBacked s = [] := depositBacked_sound (reachable_inv hc hr)
 
 end SM.C03
